@@ -792,7 +792,7 @@ async fn run_task(w: &mut World, variant: u64, out: &Segs, err: &Segs, cap: u64,
             o.fail("seq_not_consecutive", format!("frame {i} has seq {}", u(e, "seq")));
         }
     }
-    lifecycle_oracle(&mut o, &codes, variant == 2);
+    lifecycle_oracle(&mut o, &codes, false);
     if variant != 0 && variant != 4 {
         if codes.last() != Some(&24) {
             o.fail("failure_not_reported_failed", format!("{codes:?}"));
@@ -1190,7 +1190,8 @@ fn res_codes_case(o: Obs, codes: Vec<u64>, variant: u64) -> (Obs, Vec<(Spec, Vec
     if codes.is_empty() {
         return (o, vec![]);
     }
-    let spawnless = variant == 2;
+    let spawnless = false; // since the repair of S12b every stream opens with the spawn frame
+    let _ = variant;
     let mut enc = if spawnless { vec![0, 0, 1] } else { vec![1, 1, 0] };
     enc.extend(codes.iter().copied());
     (o, vec![(Spec::Lifecycle { codes }, enc)])
